@@ -17,22 +17,22 @@ from . import freeform
 __all__ = []
 
 
-def generate_curve(rational=False):
+def generate_curve(rational=False, **kwargs):
     if rational:
-        return NURBS.Curve()
-    return BSpline.Curve()
+        return NURBS.Curve(**kwargs)
+    return BSpline.Curve(**kwargs)
 
 
-def generate_surface(rational=False):
+def generate_surface(rational=False, **kwargs):
     if rational:
-        return NURBS.Surface()
-    return BSpline.Surface()
+        return NURBS.Surface(**kwargs)
+    return BSpline.Surface(**kwargs)
 
 
-def generate_volume(rational=False):
+def generate_volume(rational=False, **kwargs):
     if rational:
-        return NURBS.Volume()
-    return BSpline.Volume()
+        return NURBS.Volume(**kwargs)
+    return BSpline.Volume(**kwargs)
 
 
 def generate_freeform():
